@@ -1146,6 +1146,16 @@ def run_enum(numqi, case, out, env):
         out.trans()
         gA, gB = numqi.qec.quantum_weight_enumerator(cw)
         gA, gB = np.asarray(gA, dtype=np.float64), np.asarray(gB, dtype=np.float64)
+        if n <= 6:
+            # result-neutral option axis: the progress-bar switch must not change the enumerator
+            import contextlib, io
+            with contextlib.redirect_stderr(io.StringIO()):
+                tA, tB = numqi.qec.quantum_weight_enumerator(cw, use_tqdm=True)
+            tA, tB = np.asarray(tA, dtype=np.float64), np.asarray(tB, dtype=np.float64)
+            out.trans()
+            out.check(tA.shape == gA.shape and tB.shape == gB.shape and np.array_equal(tA, gA) and np.array_equal(tB, gB), key + '/use_tqdm_changes_result',
+                      '%s: quantum_weight_enumerator(use_tqdm=True) = %r, %r; use_tqdm=False = %r, %r' % (NAME[tag], tA.tolist(), tB.tolist(), gA.tolist(), gB.tolist()),
+                      code=NAME[tag])
         if out.check(gA.shape == (n,) and gB.shape == (n,) and np.all(np.isfinite(gA)) and np.all(np.isfinite(gB)), key + '/wrong_shape_or_nonfinite',
                      'quantum_weight_enumerator returns shapes %r %r' % (gA.shape, gB.shape), code=NAME[tag]):
             for j in range(1, n + 1):
